@@ -9,6 +9,10 @@ import (
 	"crypto/x509"
 	"crypto/x509/pkix"
 	"fmt"
+	"github.com/refraction-networking/uquic/internal/utils"
+	"github.com/refraction-networking/uquic/qlogwriter"
+	"io"
+	"log"
 	"math/big"
 	"net"
 	"regexp"
@@ -84,8 +88,8 @@ func initCerts() {
 
 // KeyLog collects NSS key log lines (safe for concurrent use).
 type KeyLog struct {
-	mu    sync.Mutex
-	lines []string
+	mu     sync.Mutex
+	lines  []string
 	OnLine func(line string)
 }
 
@@ -102,7 +106,11 @@ func (k *KeyLog) Write(p []byte) (int, error) {
 }
 
 // Lines returns a copy of the collected lines.
-func (k *KeyLog) Lines() []string { k.mu.Lock(); defer k.mu.Unlock(); return append([]string(nil), k.lines...) }
+func (k *KeyLog) Lines() []string {
+	k.mu.Lock()
+	defer k.mu.Unlock()
+	return append([]string(nil), k.lines...)
+}
 
 // ServerTLS returns a server tls.Config (ALPN "h3" unless given).
 func ServerTLS(longChain bool, keylog *KeyLog, alpn ...string) *tls.Config {
@@ -279,4 +287,24 @@ func NewWorldBlackholeServer(rtt time.Duration) *World {
 	r.AddNode(ServerAddr, sink{})
 	r.SetEndpoints(ClientAddr, ServerAddr)
 	return w
+}
+
+// ---- observability switched on: what the endpoints do must not depend on it ----
+
+type discardTrace struct{}
+
+func (discardTrace) AddProducer() qlogwriter.Recorder { return discardTrace{} }
+func (discardTrace) SupportsSchemas(string) bool      { return true }
+func (discardTrace) RecordEvent(qlogwriter.Event)     {}
+func (discardTrace) Close() error                     { return nil }
+
+// DiscardTracer is a quic.Config.Tracer that accepts every event and drops it.
+func DiscardTracer(context.Context, bool, quic.ConnectionID) qlogwriter.Trace { return discardTrace{} }
+
+// DebugLogging switches the library's default logger to debug level (output discarded) and returns the function
+// that switches it off again. The level is process-wide: cases run one after the other in a process.
+func DebugLogging() func() {
+	log.SetOutput(io.Discard)
+	utils.DefaultLogger.SetLogLevel(utils.LogLevelDebug)
+	return func() { utils.DefaultLogger.SetLogLevel(utils.LogLevelNothing) }
 }
